@@ -85,7 +85,7 @@ def apply_edit(model, e, history):
     elif e == 'add_c_d':
         m['c'] = {'cmd': 'progc', 'numprocesses': 1, 'graceful_timeout': '0.2'}
         m['d'] = {'cmd': 'progd', 'numprocesses': 1, 'graceful_timeout': '0.2'}
-    elif e in ('np_a_cmd_b', 'np_b_cmd_a', 'bad_b'):
+    elif e in ('np_a_cmd_b', 'np_b_cmd_a'):
         x, y = ('a', 'b') if e == 'np_a_cmd_b' else ('b', 'a')
         if x in m:
             m[x]['numprocesses'] += 1
